@@ -92,3 +92,14 @@ def dropped_decorators(node):
         except Exception:  # noqa: BLE001
             out.append("?")
     return out
+
+
+def module_loop_ordinals(tree, target_node):
+    """id(loop) -> key for every function of the module: the target's own loops are keyed by their ordinal `k`,
+    loops of any other function by `(function name, k)`."""
+    out = {}
+    for fn in ast.walk(tree):
+        if isinstance(fn, (ast.FunctionDef, ast.AsyncFunctionDef)):
+            for lid, k in loop_ordinals(fn).items():
+                out[lid] = k if fn is target_node else (fn.name, k)
+    return out
